@@ -3731,6 +3731,17 @@ pub fn case_c14(w: &mut World, t: &mut Tape) -> E2eOut {
 // ---------------------------------------------------------------- worker / parent plumbing
 
 /// `vcheck E2E-WORKER <prop> <seed> <first> <count> <stride> [tape.json]`
+/// (total, idle) jiffies of all CPUs from /proc/stat
+fn cpu_jiffies() -> Option<(u64, u64)> {
+    let s = std::fs::read_to_string("/proc/stat").ok()?;
+    let l = s.lines().next()?;
+    let v: Vec<u64> = l.split_whitespace().skip(1).filter_map(|x| x.parse().ok()).collect();
+    if v.len() < 5 {
+        return None;
+    }
+    Some((v.iter().take(8).sum(), v[3] + v[4]))
+}
+
 pub fn worker_main(args: &[String]) -> i32 {
     // die with the parent check process (e.g. when its watchdog ends it)
     unsafe {
@@ -3807,6 +3818,7 @@ pub fn worker_main(args: &[String]) -> i32 {
             None => Tape::fresh(seed ^ hash_str("daemon"), idx),
         };
         let _ = w.capture_drops();
+        let cpu0 = cpu_jiffies();
         let r = match prop.as_str() {
             "C15" => case_c15(&mut w, &mut tape, idx as u32),
             "C19" => case_c19(&mut w, exporter.as_ref().unwrap(), &mut tape),
@@ -3835,6 +3847,21 @@ pub fn worker_main(args: &[String]) -> i32 {
             // the case concluded is not reliable
             r.inconclusive = Some(format!("{} frames dropped at the harness's capture sockets (machine overloaded)", lost));
             r.out.violation = None;
+        }
+        // Every bound in these cases is a real-time bound. If the machine as a whole was saturated while the case ran
+        // (all CPUs more than 92 % busy: with eight workers and their daemons alone it is about half idle), the daemon,
+        // the harness and the kernel work between them were kept waiting for milliseconds at a time and a failure
+        // proves nothing: inconclusive, like a capture drop.
+        let busy = match (cpu0, cpu_jiffies()) {
+            (Some((t0, i0)), Some((t1, i1))) if t1 > t0 + 50 => 1.0 - (i1.saturating_sub(i0)) as f64 / (t1 - t0) as f64,
+            _ => 0.0,
+        };
+        if busy > 0.92 && r.out.violation.is_some() && r.inconclusive.is_none() {
+            r.inconclusive = Some(format!("all CPUs were {:.0} % busy during the case (machine saturated by other work); the case failed with: {}", busy * 100.0, r.out.violation.as_ref().map(|v| v.sig.clone()).unwrap_or_default()));
+            r.out.violation = None;
+        }
+        if busy > 0.92 {
+            r.out.label("daemon:machine-saturated");
         }
         if !r.out.render.is_object() {
             r.out.render = json!({});
